@@ -199,7 +199,9 @@ def _line_files(src):
 
     # the lexer honours a '#' directive wherever it stands, not only at the
     # start of a line
-    return tuple(m.group(1) for m in re.finditer(r'#[ \t]*(?:line)?[ \t]*\d+[ \t]+"([^"\n]*)"', src))
+    # (the string follows the lexer's own literal grammar - escapes allowed -
+    # and the lexer strips every leading/trailing quote character)
+    return tuple(m.group(1).lstrip('"').rstrip('"') for m in re.finditer(r'#[ \t]*(?:line)?[ \t]*\d+[ \t]*("(?:[^"\\\n]|\\.)*")', src))
 
 
 NOISE = list(" \t\n") + [chr(i) for i in range(33, 127)] + ["\x00", "\x7f", "\xe9", "€", "\r", "\x0c"]
